@@ -1,14 +1,15 @@
 import Driver.Codec
-import Nutree.Model.Ops
+import Nutree.Model.World
 import Nutree.Spec.WF
 open Lean Nutree
 namespace Driver
+open Nutree.Flt
 
 def errJson (e : Err) : Json := Json.mkObj [("err", .str e.toString)]
 
 def getTree (st : St) (j : Json) (k : String := "t") : E (Nat × Tree) := do
   let i ← (← field j k).getNat?
-  match st.trees[i]? with
+  match st.w.trees[i]? with
   | some t => return (i, t)
   | none => throw s!"no tree {i}"
 
@@ -24,7 +25,6 @@ def beforeOfJson (t : Tree) : Json → E Before
   | .bool false => .ok .bFalse
   | .num n => .ok (.idx n.mantissa)
   | j => do
-    -- {"t": i, "path": [...]} a node (possibly of another tree: then the id is made unknown to this tree)
     let path ← natList (← field j "path")
     let foreign ← (fieldD j "foreign" (.bool false)).getBool?
     if foreign then return .node 999999999
@@ -39,12 +39,23 @@ def treeObs (t : Tree) : Json := Json.mkObj [
   ("tree", forestToJson t.root.kids), ("byId", natsJson t.byId), ("byData", didsJson t.byData),
   ("typed", .bool t.typed), ("wf", .bool (wfB t))]
 
-def worldObs (st : St) : Json := .arr (st.trees.toList.map treeObs).toArray
+def worldObs (st : St) : Json := .arr (st.w.trees.map treeObs).toArray
+
+def resJson : Option Err → Json
+  | none => .str "ok"
+  | some e => .str e.toString
 
 def reply (st : St) (r : Option Err) (extra : List (String × Json) := []) : St × Json :=
-  (st, Json.mkObj ([("res", match r with | none => Json.str "ok" | some e => .str e.toString), ("obs", worldObs st)] ++ extra))
+  (st, Json.mkObj ([("res", resJson r), ("obs", worldObs st)] ++ extra))
 
-def setTree (st : St) (i : Nat) (t : Tree) : St := { st with trees := st.trees.set! i t }
+/-- run one model operation. -/
+def exec (st : St) (op : Op) (extra : List (String × Json) := []) : St × Json :=
+  let (w', r) := st.w.step op
+  reply { st with w := w' } r extra
+
+def optDidJ : Json → E (Option DataId)
+  | .null => .ok none
+  | j => do return some (← didOfJson j)
 
 def hookOfJson : Json → E (Option (List (Nat × Option DataId)))
   | .null => .ok none
@@ -52,16 +63,9 @@ def hookOfJson : Json → E (Option (List (Nat × Option DataId)))
     let l ← (← j.getArr?).toList.mapM fun e => do
       let a ← e.getArr?
       let o ← a[0]!.getNat?
-      let d ← optDidW a[1]!
+      let d ← optDidJ a[1]!
       return (o, d)
     return some l
-where optDidW : Json → E (Option DataId)
-  | .null => .ok none
-  | j => do return some (← didOfJson j)
-
-def optDidJ : Json → E (Option DataId)
-  | .null => .ok none
-  | j => do return some (← didOfJson j)
 
 def optBoolJ : Json → E (Option Bool)
   | .null => .ok none
@@ -81,15 +85,32 @@ def keyOfJsonW : Json → E KeyFn
       | some r => r
       | none => some ""
 
+def rawPOfString : String → E RawP
+  | "retTrue" => .ok .retTrue | "retFalse" => .ok .retFalse | "retNone" => .ok .retNone
+  | "retSkipInst" => .ok .retSkipInst | "retSkipSelfInst" => .ok .retSkipSelfInst
+  | "retSelectInst" => .ok .retSelectInst | "retStopInst" => .ok .retStopInst
+  | "retSkipCls" => .ok .retSkipCls | "retSelectCls" => .ok .retSelectCls | "retStopCls" => .ok .retStopCls
+  | "raiseSkip" => .ok .raiseSkip | "raiseSkipSelf" => .ok .raiseSkipSelf | "raiseSelect" => .ok .raiseSelect
+  | "raiseStop" => .ok .raiseStop | "raiseStopIter" => .ok .raiseStopIter
+  | "retOther" => .ok .retOther | "raiseOther" => .ok .raiseOther
+  | s => .error s!"rawP {s}"
+
+/-- verdict table `{ "<node id>": tag }`, default `retFalse`. -/
+def verdictOfJson (j : Json) : E (T → Verdict) := do
+  let obj ← j.getObj?
+  let tbl ← obj.toList.mapM fun (k, v) => do
+    let some id := k.toNat? | throw "verdict key"
+    return (id, callPredicate (← rawPOfString (← v.getStr?)))
+  return fun t => (tbl.lookup t.id).getD .reject
+
 def handleWorld (st : St) (op : String) (j : Json) : Option (E (St × Json)) :=
   match op with
-  | "w.reset" => some (pure ({ st with trees := #[], next := 1 }, Json.mkObj [("res", .str "ok")]))
+  | "w.reset" => some (pure ({ st with w := {} }, Json.mkObj [("res", .str "ok")]))
   | "w.new" => some do
     let typed ← (fieldD j "typed" (.bool false)).getBool?
     let hook ← hookOfJson (fieldD j "hook" .null)
-    let t : Tree := { typed := typed, hook := hook }
-    let st' := { st with trees := st.trees.push t }
-    return (st', Json.mkObj [("res", .str "ok"), ("tree", .num (JsonNumber.fromNat st.trees.size))])
+    let (st', r) := exec st (.newTree typed hook)
+    return (st', r.setObjVal! "tree" (.num (JsonNumber.fromNat st.w.trees.length)))
   | "w.obs" => some (pure (reply st none))
   | "w.add" => some do
     let (i, t) ← getTree st j
@@ -99,9 +120,7 @@ def handleWorld (st : St) (op : String) (j : Json) : Option (E (St × Json)) :=
     let before ← beforeOfJson t (fieldD j "before" .null)
     let did ← optDidJ (fieldD j "did" .null)
     let kind ← optStr (fieldD j "kind" .null)
-    match t.addData st.next p.id a before did kind with
-    | .ok t1 => return reply { setTree st i t1 with next := st.next + 1 } none [("new", .num (JsonNumber.fromNat st.next))]
-    | .error e => return reply st (some e)
+    return exec st (.add i p.id a before did kind)
   | "w.addnode" => some do
     let (i, t) ← getTree st j
     let p ← nodeAt t j "p"
@@ -111,66 +130,54 @@ def handleWorld (st : St) (op : String) (j : Json) : Option (E (St × Json)) :=
     let deep ← optBoolJ (fieldD j "deep" .null)
     let did ← optDidJ (fieldD j "did" .null)
     let kind ← optStr (fieldD j "kind" .null)
-    let srcParent := if si == i then t.parentId src.id else none
-    let (t1, n1, r) := t.addNode st.next p.id src (si == i) srcParent before deep did kind
-    return reply { setTree st i t1 with next := n1 } r
+    return exec st (.addNode i p.id si src.id before deep did kind)
   | "w.addtree" => some do
     let (i, t) ← getTree st j
     let p ← nodeAt t j "p"
-    let (_, s) ← getTree st j "st"
+    let (si, _) ← getTree st j "st"
     let before ← beforeOfJson t (fieldD j "before" .null)
     let deep ← optBoolJ (fieldD j "deep" .null)
-    let (t1, n1, r) := t.addTree st.next p.id s.root.kids before deep
-    return reply { setTree st i t1 with next := n1 } r
+    return exec st (.addTree i p.id si before deep)
   | "w.copykids" => some do
     let (i, t) ← getTree st j
     let p ← nodeAt t j "p"
-    let (_, s) ← getTree st j "st"
+    let (si, s) ← getTree st j "st"
     let src ← nodeAt s j "sp"
     let deep ← (fieldD j "deep" (.bool false)).getBool?
-    let (t1, n1, r) := t.copyKids st.next p.id src.kids deep
-    return reply { setTree st i t1 with next := n1 } r
+    return exec st (.copyKids i p.id si src.id deep)
   | "w.copy" => some do
-    let (_, s) ← getTree st j "st"
-    let (t1, n1, r) := s.copyAll st.next
-    if r.isSome then return reply st r
-    return reply { st with trees := st.trees.push t1, next := n1 } r
+    let (si, _) ← getTree st j "st"
+    return exec st (.copyAll si)
   | "w.nodecopy" => some do
-    let (_, s) ← getTree st j "st"
+    let (si, s) ← getTree st j "st"
     let src ← nodeAt s j "sp"
     let addSelf ← (fieldD j "self" (.bool true)).getBool?
-    let (t1, n1, r) := s.copyBranch st.next src addSelf
-    if r.isSome then return reply st r
-    return reply { st with trees := st.trees.push t1, next := n1 } r
+    return exec st (.copyBranch si src.id addSelf)
   | "w.move" => some do
     let (i, t) ← getTree st j
     let n ← nodeAt t j "n"
     let cross ← (fieldD j "cross" (.bool false)).getBool?
-    if cross then return reply st (some .notImplemented)
+    if cross then return exec st (.moveCross i n.id)
     let to ← nodeAt t j "to"
     let before ← beforeOfJson t (fieldD j "before" .null)
-    match t.moveTo n.id to.id before with
-    | .ok t1 => return reply (setTree st i t1) none
-    | .error e => return reply st (some e)
+    return exec st (.move i n.id to.id before)
   | "w.remove" => some do
     let (i, t) ← getTree st j
     let n ← nodeAt t j "n"
     let keep ← (fieldD j "keep" (.bool false)).getBool?
     let clones ← (fieldD j "clones" (.bool false)).getBool?
-    let (t1, r) := t.remove n.id keep clones
-    return reply (setTree st i t1) r
+    return exec st (.remove i n.id keep clones)
   | "w.removechildren" => some do
     let (i, t) ← getTree st j
     let n ← nodeAt t j "n"
-    return reply (setTree st i (t.removeChildren n.id)) none
+    return exec st (.removeChildren i n.id)
   | "w.sort" => some do
     let (i, t) ← getTree st j
     let n ← nodeAt t j "n"
     let key ← keyOfJsonW (fieldD j "key" (.str "name"))
     let rev ← (fieldD j "reverse" (.bool false)).getBool?
     let deep ← (fieldD j "deep" (.bool false)).getBool?
-    let (t1, r) := t.sort n.id key rev deep
-    return reply (setTree st i t1) r
+    return exec st (.sort i n.id key rev deep)
   | "w.setdata" => some do
     let (i, t) ← getTree st j
     let n ← nodeAt t j "n"
@@ -183,26 +190,33 @@ def handleWorld (st : St) (op : String) (j : Json) : Option (E (St × Json)) :=
     let did ← optDidJ (fieldD j "did" .null)
     let wc ← optBoolJ (fieldD j "clones" .null)
     let isRename := (fieldD j "via" .null) == Json.str "rename"
-    -- `rename`: only for plain string nodes, then `set_data(new_name)`
-    if isRename && !n.data.isStr then return reply st (some .value)
-    match t.setData n.id a did wc with
-    | .ok t1 => return reply (setTree st i t1) none
-    | .error e => return reply st (some e)
+    return exec st (.setData i n.id a did wc isRename)
   | "w.meta" => some do
     let (i, t) ← getTree st j
     let n ← nodeAt t j "n"
     let kind ← (← field j "kind").getStr?
-    let upd : Option (List (String × String)) → E (Option (List (String × String))) := fun m => do
-      match kind with
-      | "set" => return metaSet m (← (← field j "k").getStr?) (← (← field j "v").getStr?)
-      | "clear" => return metaClear m (← optStr (fieldD j "k" .null))
-      | "update" =>
+    let m := n.info.nmeta
+    let m' ← match kind with
+      | "set" => pure (metaSet m (← (← field j "k").getStr?) (← (← field j "v").getStr?))
+      | "clear" => pure (metaClear m (← optStr (fieldD j "k" .null)))
+      | "update" => do
         let vals ← metaOfJson (← field j "vals")
-        return metaUpdate m (vals.getD []) (← (fieldD j "replace" (.bool false)).getBool?)
+        pure (metaUpdate m (vals.getD []) (← (fieldD j "replace" (.bool false)).getBool?))
       | s => throw s!"meta kind {s}"
-    let m' ← upd n.info.nmeta
-    let t1 := { t with root := setInfoT n.id (fun i => { i with nmeta := m' }) t.root }
-    return reply (setTree st i t1) none
+    return exec st (.setMeta i n.id m')
+  | "w.filter" => some do
+    let (i, t) ← getTree st j
+    let n ← nodeAt t j "n"
+    let v ← verdictOfJson (← field j "v")
+    return exec st (.filter i n.id v) [("spec", forestToJson (Spec.filterSpec v n.kids))]
+  | "w.filtered" => some do
+    let (si, s) ← getTree st j "st"
+    let v ← verdictOfJson (← field j "v")
+    match fieldD j "sp" .null with
+    | .null => return exec st (.filtered si none v) [("spec", forestToJson (Spec.filterSpec v s.root.kids))]
+    | _ =>
+      let src ← nodeAt s j "sp"
+      return exec st (.filtered si (some src.id) v) [("spec", forestToJson [T.node src.info (Spec.filterSpec v src.kids)])]
   | "w.chk" => some do
     -- evaluate the decidable well-formedness conjuncts on a state observed from the implementation
     let tops ← forestOfJson st.pool (← field j "tree")
